@@ -165,7 +165,73 @@ class Program:
         for c in self.consts:
             self.const_by_name.setdefault(c["name"], []).append(c)
         self._cg = None
+        self._dissolve_helpers()
         self._tuple_accessors()
+
+    def _dissolve_helpers(self):
+        """Private helper structs embedded by value in a role struct (`LearnedSelections { selections, prev_selection }` inside the method
+        struct, a newtype around the key map) only group fields: in field paths, field lists and constructor aggregates the role struct is
+        seen with the helper's fields as its own.  A helper qualifies when it is a plain crate-private struct (no generics, one variant, not a
+        role type) that is the type of exactly one field in the whole crate."""
+        from . import mir as _mir
+        _mir.DISSOLVE.clear()
+        self._flat_fields = {}
+        role_names = set(ROLE_TYPES.values())
+        used = defaultdict(list)
+        for path, a in self.adts.items():
+            if a.get("kind") not in (None, "struct") and len(a["variants"]) != 1:
+                continue
+            for v in a["variants"]:
+                for fl in v["fields"]:
+                    used[fl["ty"]].append((path, fl["name"]))
+        owners = [p for p in self.adts if p in role_names or p in self.method_structs_safe()]
+        # the suggestion-engine struct etc. are role types by ROLE_TYPES already
+        for S in owners:
+            a = self.adts.get(S)
+            if not a or len(a["variants"]) != 1:
+                continue
+            taken = {fl["name"] for fl in a["variants"][0]["fields"]}
+            for fl in a["variants"][0]["fields"]:
+                H = fl["ty"]
+                h = self.adts.get(H)
+                if not h or H in role_names or "<" in H or len(h["variants"]) != 1 or h.get("kind") == "enum" or len(used.get(H, [])) != 1:
+                    continue
+                if fl["name"] in _mir.DISSOLVE:
+                    continue
+                hf = h["variants"][0]["fields"]
+                if not hf or len(hf) > 6:
+                    continue
+                rename = {}
+                for x in hf:
+                    nm = x["name"]
+                    if len(hf) == 1 and nm.isdigit():
+                        flat = fl["name"]                       # a newtype: the wrapped value is the field itself
+                    elif nm in taken or nm.isdigit():
+                        flat = "%s_%s" % (fl["name"], nm)
+                    else:
+                        flat = nm
+                    rename[nm] = flat
+                    taken.add(flat)
+                _mir.DISSOLVE[fl["name"]] = {"owner": S, "helper": H, "rename": rename}
+        for S in owners:
+            a = self.adts.get(S)
+            if not a or len(a["variants"]) != 1:
+                continue
+            out = []
+            for fl in a["variants"][0]["fields"]:
+                d = _mir.DISSOLVE.get(fl["name"])
+                if d is not None and d["owner"] == S:
+                    for x in self.adts[d["helper"]]["variants"][0]["fields"]:
+                        out.append(dict(x, name=d["rename"][x["name"]]))
+                else:
+                    out.append(fl)
+            self._flat_fields[S] = out
+
+    def method_structs_safe(self):
+        try:
+            return set(self.method_structs())
+        except Exception:
+            return set()
 
     def _tuple_accessors(self):
         """Accessor equivalences of the crate's own types: a `&self` method returning a tuple whose i-th component is exactly what a
@@ -349,6 +415,9 @@ class Program:
         a = self.adts.get(path)
         if not a:
             raise AnchorError("no ADT %s" % path)
+        ff = getattr(self, "_flat_fields", {}).get(path)
+        if ff is not None:
+            return ff
         return a["variants"][0]["fields"]
 
     # ---- call graph
